@@ -520,7 +520,10 @@ func reqString(q types.Request) string {
 }
 
 func (p Prop) Run(r *core.Run) *core.Violation {
+	r.Sim.OrderMode = verifsim.OrderCanonical
+	r.Sim.Activate()
 	sc := genScenario(r)
+	r.Sim.Deactivate()
 	sim := r.Sim
 	sim.OrderMode = verifsim.OrderTape
 	if r.T.Intn(6) == 5 {
